@@ -75,17 +75,29 @@ RowEv == /\ l >= 1 /\ l <= N /\ Events[l].e = "row"
                              /\ l' = 0 /\ UNCHANGED <<vm, prog, stats>>
                         ELSE /\ vm' = r.vm /\ l' = l + 1 /\ stats' = [stats EXCEPT !.rows = @ + 1] /\ UNCHANGED prog
 
-\* end of a run: a successful execution must have reached HALT with the recorded outputs
+\* the specification running on its own (no recorded inputs) until it halts, fails or runs out of fuel
+RECURSIVE FreeRun(_, _)
+FreeRun(v, fuel) ==
+  IF v.todo.do = "halt" THEN [ok |-> "halted", vm |-> v]
+  ELSE IF fuel = 0 THEN [ok |-> "fuel"]
+  ELSE LET r == Step(v, [next |-> [i \in 1 .. 16 |-> F0]], prog) IN IF r.ok = "ok" THEN FreeRun(r.vm, fuel - 1) ELSE r
+
+\* end of a run: a successful execution must have reached HALT with the recorded outputs; for a failed execution
+\* (no rows are recorded) the specification is run from the initial state and must fail in the same way
 EndEv == /\ l >= 1 /\ l <= N /\ Events[l].e = "end"
-         /\ LET ev == Events[l] IN
+         /\ \E ev \in {Events[l]} :
             IF ev.outcome = "ok" /\ "none" \notin DOMAIN vm
-              THEN LET bad == {f \in {"halt", "out_stack", "cycles"} :
+              THEN \E bad \in {{f \in {"halt", "out_stack"} :
                                  CASE f = "halt" -> vm.todo.do # "halt"
-                                   [] f = "out_stack" -> ev.out_stack # vm.stack
-                                   [] f = "cycles" -> FALSE}
-                   IN IF bad # {} THEN PrintT(<<"REJECT", l, "end", bad>>) /\ l' = 0
+                                   [] f = "out_stack" -> ev.out_stack # vm.stack}} :
+                   IF bad # {} THEN PrintT(<<"REJECT", l, "end", bad>>) /\ l' = 0
                       ELSE l' = l + 1
-              ELSE l' = l + 1
+            ELSE IF ev.outcome = "err" /\ "none" \notin DOMAIN vm
+              THEN \E fr \in {FreeRun(vm, 5000)} :
+                   IF fr.ok = "fail" /\ fr.kind = ev.err.kind THEN l' = l + 1
+                   ELSE PrintT(<<"REJECT", l, "end", "spec outcome", [ok |-> fr.ok, kind |-> IF fr.ok = "fail" THEN fr.kind ELSE ""], "recorded", ev.err.kind>>) /\ l' = 0
+            ELSE IF ev.outcome = "panic" THEN PrintT(<<"REJECT", l, "end", "panic", ev.msg>>) /\ l' = 0
+            ELSE l' = l + 1
          /\ UNCHANGED <<vm, prog, stats>>
 
 Done == l = N + 1 /\ PrintT(<<"ACCEPT", stats>>) /\ l' = N + 2 /\ UNCHANGED <<vm, prog, stats>>
